@@ -154,6 +154,8 @@ struct World {
   /// where the LCD controller stands when a case begins: 0 = power-on (display off, start of
   /// VBlank); 1..=3 = display on (LCDC = 0x91), line 5, in mode 2 / mode 3 / mode 0
   lcd_ctx: u8,
+  /// how the next cases deliver time (copied into Exec.via_core)
+  via_core: Option<bool>,
 }
 
 const LCD_CTX_NAME: [&str; 4] = ["power-on", "lcd-on/mode2", "lcd-on/mode3", "lcd-on/mode0"];
@@ -172,7 +174,7 @@ fn make_world(path: &str) -> World {
   let pristine = Mem4::pattern();
   pristine.store_into(&mut core.memory);
   let shadow = Mem4::capture(&core.memory);
-  World { core, image, pristine, shadow, dirty: false, lcd_ctx: 0 }
+  World { core, image, pristine, shadow, dirty: false, lcd_ctx: 0, via_core: None }
 }
 
 #[derive(Clone, Copy, PartialEq, Debug)]
@@ -238,6 +240,10 @@ struct Exec<'w> {
   /// stray store cannot be undone by the subject, so nothing is missed; stage 1 is eager)
   lazy: bool,
   final_step: bool,
+  /// None: time is delivered by calling `MemoryAreas::run_clock_cycles` directly.
+  /// Some(halt?): time passes the way it does while the CPU sleeps: one `Core::update()` per
+  /// machine cycle with the CPU in Halt (true) or Stop (false), nothing pending
+  via_core: Option<bool>,
   /// (ROM bank, RAM bank, VRAM bank, WRAM bank) as they must stay
   banks: (usize, usize, usize, usize),
 }
@@ -299,7 +305,7 @@ impl<'w> Exec<'w> {
     }
     w.core.memory.oam_ram.copy_from_slice(&oam);
     let banks = (w.core.memory.cart_state.get_rom_bank(), w.core.memory.cart_state.get_ram_bank(), w.core.memory.vram_bank, w.core.memory.wram_bank);
-    Exec { banks, w, r: Ref { page, dma: None, oam }, log: Vec::with_capacity(8), clocks: 0, last_writes: Vec::with_capacity(OAM_LEN), last_class: 0, bytes: 0, volatile_judged: 0, modify_skipped: 0, lazy: false, final_step: false }
+    Exec { banks, w, r: Ref { page, dma: None, oam }, log: Vec::with_capacity(8), clocks: 0, last_writes: Vec::with_capacity(OAM_LEN), last_class: 0, bytes: 0, volatile_judged: 0, modify_skipped: 0, lazy: false, final_step: false, via_core: None }
   }
 
   fn volatile_index(&self, off: usize) -> Option<usize> {
@@ -391,7 +397,16 @@ impl<'w> Exec<'w> {
         self.log.push(LogEnt::Elapse(b));
         self.clocks += b as u64;
         trace_start();
-        self.w.core.memory.run_clock_cycles(ClockCycles(b as usize));
+        match self.via_core {
+          None => self.w.core.memory.run_clock_cycles(ClockCycles(b as usize)),
+          Some(halt) => {
+            for _ in 0..b / 4 {
+              self.w.core.run_state = if halt { crate::emulator::RunState::Halt } else { crate::emulator::RunState::Stop };
+              self.w.core.interrupts_enabled = crate::emulator::InterruptState::Disabled;
+              self.w.core.update();
+            }
+          },
+        }
         let (t, ovf) = trace_stop();
         self.last_writes.clear();
         for e in t.iter() {
@@ -600,7 +615,9 @@ fn report_fails(ctx: &mut Ctx, x: &Exec, stage: &str, action_label: &str, case_p
 /// whether step i of `acts` is a transition not yet counted by an earlier call.
 /// Returns false if a step failed (the rest of the history is then abandoned).
 fn run_history(w: &mut World, ctx: &mut Ctx, stage: &str, page: u8, p0: Option<usize>, acts: &[Act], counted: &[bool], label_override: Option<&str>, lazy: bool) -> bool {
+  let via = w.via_core;
   let mut x = Exec::begin(w, page);
+  x.via_core = via;
   x.lazy = lazy;
   let mut ok = true;
   // construct the state: arm, elapse 4p in one batch, confirm through the hook / OAM / trace
@@ -776,6 +793,36 @@ pub fn run(tier: &str) -> i32 {
     crash_detail("elapse@lcd-on", pages.clone(), per_page1b),
   );
   let c1b = rep.add_stage("transition-relation-lcd-on", "pages x progress {idle,0,1,80,159} x LCD controller on and inside line 5 in {mode 2, mode 3, mode 0} x (176 + 14 large batch sizes + 5 re-arms x 3 steps; from progress 0 also every split of the transfer into two batches)", r1b);
+
+  // ------------------------------------------------------------------ stage 1c: CPU asleep
+  // the transfer must go on while the CPU is halted or stopped: time is delivered by
+  // Core::update(), one machine cycle per call
+  let p0c: [Option<usize>; 4] = [None, Some(0), Some(80), Some(159)];
+  let per_page1c = (p0c.len() * 2) as u64;
+  let opts = PoolOpts { chunk: 2, bitmap_bits: 1 << 12, ..PoolOpts::default() };
+  let r1c = run_pool(
+    npages * per_page1c,
+    &opts,
+    |_| make_world(&path),
+    |w: &mut World, case, ctx: &mut Ctx| {
+      let page = pages[(case / per_page1c) as usize];
+      let sub = (case % per_page1c) as usize;
+      let p0 = p0c[sub / 2];
+      let halt = sub % 2 == 0;
+      w.via_core = Some(halt);
+      let label = if halt { "elapse@cpu-halted" } else { "elapse@cpu-stopped" };
+      for b in [4u32, 8, 40, 316, 636, 640, 700].iter() {
+        run_history(w, ctx, "cpu-asleep", page, p0, &[Act::Elapse(*b)], &[true], Some(label), false);
+      }
+      for k in 0..5u8 {
+        let acts = [Act::Rearm(k), Act::Elapse(8), Act::Elapse(640)];
+        run_history(w, ctx, "cpu-asleep", page, p0, &acts, &[true, true, true], Some(label), false);
+      }
+      w.via_core = None;
+    },
+    crash_detail("elapse@cpu-asleep", pages.clone(), per_page1c),
+  );
+  let c1c = rep.add_stage("cpu-asleep", "pages x progress {idle,0,80,159} x CPU {halted, stopped} x time delivered by Core::update(), one machine cycle per call: 7 durations up to 700 clocks and 5 re-arms x 3 steps", r1c);
 
   // ------------------------------------------------------------------ stage 2: histories
   let mut alphabet: Vec<Act> = Vec::new();
@@ -972,8 +1019,8 @@ pub fn run(tier: &str) -> i32 {
 
   let _ = std::fs::remove_file(&path);
 
-  let transitions = c1[C_TRANS] + c1b[C_TRANS] + c2[C_TRANS] + c3[C_TRANS];
-  let traces = c1[C_TRACES] + c1b[C_TRACES] + c2[C_TRACES] + c3[C_TRACES];
+  let transitions = c1[C_TRANS] + c1b[C_TRANS] + c1c[C_TRANS] + c2[C_TRANS] + c3[C_TRANS];
+  let traces = c1[C_TRACES] + c1b[C_TRACES] + c1c[C_TRACES] + c2[C_TRACES] + c3[C_TRACES];
   let states = c1[C_STATES];
   let left = c1[C_LEFT_VBLANK] + c2[C_LEFT_VBLANK] + c3[C_LEFT_VBLANK];
   rep.cov("cases_running_past_the_power_on_vblank", J::u(left));
